@@ -150,13 +150,13 @@ impl Slot {
         // NOTE: We increment the version on release, not assignment.
     }
 
-    /// Releases a slot and increments its version, invalidating all handles.
-    /// Returns an `EcsError::VersionOverflow` if the version increment overflows.
+    /// Releases a slot and advances it to the given next version, invalidating all handles.
+    /// The next version is computed by the caller, since doing so may panic on overflow.
     #[inline(always)]
-    pub(crate) fn release(&mut self, index_next_free: SlotIndex) {
+    pub(crate) fn release(&mut self, index_next_free: SlotIndex, next_version: SlotVersion) {
         debug_assert!(self.is_free() == false);
         self.index = index_next_free;
-        self.version = self.version.next();
+        self.version = next_version;
     }
 }
 
